@@ -244,6 +244,10 @@ def corpus(ctx):
     check_permute(ctx, "square", [5, 5, 5], [5, 5, 5], [2, 0, 1], False, False, "float64", "omitted")
     check_permute(ctx, "square", [2, 3, 2], [2, 3, 2], [1, 2, 0], False, True, "complex128", "list")
     check_permute(ctx, "rect", [2, 3], [3, 2], [1, 0], False, False, "float64", "two")
+    # very wide / very tall operators: more than 256 columns with few rows and the reverse (index vectors in a narrow integer type wrap)
+    check_permute(ctx, "rect", [2, 2], [17, 16], [1, 0], False, False, "float64", "two")
+    check_permute(ctx, "rect", [17, 16], [2, 2], [1, 0], False, True, "complex128", "two")
+    check_permute(ctx, "rect", [2, 1, 2], [5, 11, 6], [2, 0, 1], False, False, "int64", "two")
     check_permute(ctx, "vec1d", [1, 1, 1, 1], [2, 3, 2, 4], [3, 0, 2, 1], False, True, "int64", "list")
     check_swap(ctx, "square", [2, 3, 4], [2, 3, 4], [1, 3], False, "list")
     check_permop(ctx, [2, 3, 2], [1, 2, 0], False, True)
